@@ -177,32 +177,37 @@ func (c *Ctx) checkDrainer(d drainSpec) string {
 	}
 	// exhausted edge: reset of the list, then release, then return — in the region of the len load
 	visX, _ := fi.ReachFromEdge(exitIf, exhaustedEdge, func(in ssa.Instruction) bool { return ir.IsExit(in) })
-	reset := false
 	for in := range visX {
 		if st, ok := in.(*ssa.Store); ok {
 			if fa, ok := st.Addr.(*ssa.FieldAddr); ok && c.P.FieldKey(fa) == d.list {
 				if same, r := L.SameRegion(fi, d.lock, lenLoad, st); !same {
 					return "the lock is released at " + c.Pos(r) + " between the exhaustion test and the list reset: an element appended in between is lost"
 				}
-				if isResetValue(c, st.Val, d.list) {
-					reset = true
+				if !isResetValue(c, st.Val, d.list) {
+					return "the exhausted edge stores " + c.P.Desc(st.Val) + " to " + d.list + ", which is not an empty list"
 				}
 			}
 		}
 		if d.isRun(in) {
 			return "the exhausted edge runs another element"
 		}
-		if _, ok := in.(*ssa.If); ok {
-			// any further decision on the exhausted edge must not loop back
-		}
-	}
-	if !reset {
-		return "the exhausted edge does not reset " + d.list + " (the submitters' emptiness test would never succeed again)"
-	}
-	// the exhausted edge must not continue the loop
-	for in := range visX {
 		if in == ssa.Instruction(lenLoad) {
 			return "the exhausted edge loops back into the drain loop without leaving"
+		}
+	}
+	// every path of the exhausted edge resets the list before leaving
+	isReset := func(in ssa.Instruction) bool {
+		st, ok := in.(*ssa.Store)
+		if !ok {
+			return false
+		}
+		fa, ok := st.Addr.(*ssa.FieldAddr)
+		return ok && c.P.FieldKey(fa) == d.list && isResetValue(c, st.Val, d.list)
+	}
+	visR, _ := fi.ReachFromEdge(exitIf, exhaustedEdge, isReset)
+	for in := range visR {
+		if ir.IsExit(in) {
+			return "the exhausted edge can leave at " + c.Pos(in) + " without resetting " + d.list + " (the submitters' emptiness test would never succeed again)"
 		}
 	}
 	// other edge: the fetch of list[idx] in the same region
@@ -325,7 +330,7 @@ func isResetValue(c *Ctx, v ssa.Value, list string) bool {
 	v = ir.Resolve(v)
 	switch x := v.(type) {
 	case *ssa.Slice:
-		if c.P.LoadedField(x.X) != list {
+		if _, fresh := x.X.(*ssa.Alloc); !fresh && c.P.LoadedField(x.X) != list {
 			return false
 		}
 		hi, ok := ir.ConstInt(x.High)
